@@ -275,7 +275,10 @@ impl Rig {
     if inbound {
       self.last_act = self.now;
       if self.waiting {
+        // traffic from the peer proves it is alive: it ends the wait for the PONG ("a peer ... on
+        // which traffic keeps flowing is never disconnected by the heartbeat logic")
         self.traffic_since_ping = true;
+        self.waiting = false;
       }
     }
     match ev {
@@ -566,7 +569,7 @@ fn egress_sub(depth: usize) -> Sub {
 pub fn run(tier: Tier) -> Report {
   let mut rep = Report::new("C19", tier, "model_checking");
   rep.assume("the engine stamps activity with Instant::now(); the harness overwrites the stamp with the scripted clock after each call (nothing in the same call reads it afterwards); time unit 10 s so real elapsed microseconds are negligible");
-  rep.assume("'traffic arrived after the PING but no PONG' at PING+TIMEOUT is accepted either way (the property text supports both readings)");
+  rep.assume("any inbound frame after a PING ends the wait for its PONG (traffic proves liveness); a session closed at PING+TIMEOUT although traffic arrived in between is a violation");
   rep.assume("the actor's timer wiring (a tick every HEARTBEAT_IVL) is not part of the engine timelines; the 'no later than two intervals' clause follows from ping-not-sent-when-idle plus a tick every IVL");
   let d = tier.pick(6, 8);
   for (ivl, to) in [(2u32, 1u32), (2, 2), (2, 5)] {
@@ -576,6 +579,7 @@ pub fn run(tier: Tier) -> Report {
   rep.add(timeline_sub(Kind::Curve, 2, 2, tier.pick(5, 7)));
   rep.add(timeline_sub(Kind::Noise, 2, 2, tier.pick(5, 7)));
   rep.add(egress_sub(tier.pick(5, 6)));
+  rep.add(crate::c19_real::stack_sub(tier));
   rep
 }
 
